@@ -206,7 +206,7 @@ def derived_atom_lists(fn: ast.AST) -> dict:
 
 def run(chk) -> None:
     repo = chk.repo
-    chk.robust |= {"invariance-typing", "invariance-kinds", "positional-atom", "identity-arithmetic", "identity-order", "identity-truthiness", "memo-key", "same-residue-identity", "pdb-record-filter"}
+    chk.robust |= {"invariance-typing", "invariance-kinds", "positional-atom", "identity-arithmetic", "identity-order", "identity-truthiness", "memo-key", "same-residue-identity", "pdb-record-filter", "contact-visit-order"}
     chk.explanation = (
         "Rigid-motion invariance type system (kinds Point, Vector, components, Invariant, Identity) applied to every expression of the functions on the annotation path, "
         "entered from find_pairs, find_stackings, is_connected, is_nucleotide and filter_clashing_atoms and followed into repo callees with the actual argument kinds: any comparison, "
@@ -216,7 +216,6 @@ def run(chk) -> None:
     chk.trusted = ["CPython ast", "numpy cross/dot/norm/mean and scipy KDTree are rotation/translation equivariant as modelled", "proper rotations only (cross product)"]
     chk.assumptions = [
         "decision quantities are not within 1e-6 of a threshold (float round-off under motion is not decided)",
-        "set iteration order of KD-tree index pairs feeding the greedy choices in find_pairs is a function of the index-pair set (C05 residual in DESIGN.md)",
         "find_gaps=False for the renaming clause",
     ]
     inv = Invariance(repo)
@@ -385,8 +384,69 @@ def run(chk) -> None:
         c15.check_reader_agreement(chk)
     except ImportError:
         pass
+    check_visit_order(chk)
     chk.floor("positional-atom", 3)
     chk.floor("identity-arithmetic", 3)
+
+
+def check_visit_order(chk) -> None:
+    """A loop over `tree.query_pairs(r)` walks a *set* of index pairs; the order in which CPython iterates that set depends on how
+    scipy filled it, i.e. on the KD-tree built from the coordinates, so it changes under a rigid motion although the set does not.
+    That is harmless while every iteration is independent of the others; it decides the result as soon as the body is first come,
+    first served: a guard that reads a container which the same loop fills (F23: `used_atoms` in find_pairs).  Such a loop must visit
+    the pairs in an order that is a function of the set (`sorted(...)`: by point index = by input order)."""
+    repo = chk.repo
+    rule = "contact-visit-order"
+    n = 0
+    for m, q in (("annotator", "find_pairs"), ("annotator", "find_stackings")):
+        if not repo.has_func(m, q):
+            continue
+        fi = repo.func(m, q)
+        for loop in ast.walk(fi.node):
+            if not (isinstance(loop, ast.For) and isinstance(loop.iter, ast.Call) and astq.callee_name(loop.iter) == "query_pairs"):
+                continue
+            n += 1
+            filled = set()
+            for x in ast.walk(loop):
+                if isinstance(x, ast.Call) and isinstance(x.func, ast.Attribute) and x.func.attr in ("add", "append", "update", "extend", "setdefault", "insert") and isinstance(x.func.value, ast.Name):
+                    filled.add(x.func.value.id)
+                elif isinstance(x, (ast.Assign, ast.AugAssign)):
+                    for t in x.targets if isinstance(x, ast.Assign) else [x.target]:
+                        if isinstance(t, ast.Subscript) and isinstance(t.value, ast.Name):
+                            filled.add(t.value.id)
+            read = {}
+            for x in ast.walk(loop):
+                tests = []
+                if isinstance(x, (ast.If, ast.IfExp, ast.While)):
+                    tests.append(x.test)
+                elif isinstance(x, ast.comprehension):
+                    tests.extend(x.ifs)
+                for t in tests:
+                    for c in ast.walk(t):
+                        if isinstance(c, ast.Compare) and any(isinstance(o, (ast.In, ast.NotIn)) for o in c.ops):
+                            for comp in c.comparators:
+                                if isinstance(comp, ast.Name) and comp.id in filled:
+                                    read[comp.id] = t
+                        elif isinstance(c, ast.Subscript) and isinstance(c.value, ast.Name) and c.value.id in filled and isinstance(c.ctx, ast.Load):
+                            read[c.value.id] = t
+                        elif isinstance(c, ast.Call) and isinstance(c.func, ast.Attribute) and c.func.attr in ("get", "count", "index") and isinstance(c.func.value, ast.Name) and c.func.value.id in filled:
+                            read[c.func.value.id] = t
+            wrapper = getattr(loop, "_order_wrapper", None)
+            if read and wrapper != "sorted":
+                name = sorted(read)[0]
+                chk.violation(
+                    rule,
+                    fi.site(loop),
+                    f"`for {norm(loop.target)} in {'' if wrapper is None else wrapper + '('}{norm(loop.iter)[:50]}{'' if wrapper is None else ')'}` walks a set whose iteration order depends on the KD-tree built from the coordinates, and the body is first come, first served "
+                    f"(`{norm(read[name])[:60]}` reads `{name}`, which the same loop fills): a rigid motion of the structure changes which contact wins",
+                    K(fi, f"visit-order:{name}"),
+                )
+            elif read:
+                chk.ok(rule, fi.site(loop), f"first-come-first-served loop ({sorted(read)}) visits the contacts in sorted index order: the order is a function of the contact set, not of the coordinates")
+            else:
+                chk.ok(rule, fi.site(loop), "iterations over the KD-tree pairs are independent of each other (no guard reads a container the loop fills)")
+    if n == 0:
+        chk.error(rule, "-", "no loop over query_pairs found in find_pairs / find_stackings")
 
 
 def run_thorough(chk) -> None:
